@@ -228,7 +228,21 @@ func replayReal(e *Env, steps []TraceStep, stores []string, skipDenoms map[strin
 					sq = acc.GetSequence()
 				}
 				seqs = append(seqs, sq)
-				seq[n] = sq + 1
+			}
+			// the chain advances the signers' sequences iff the transaction gets past the ante handler, i.e. iff its
+			// messages pass ValidateBasic (a transaction that fails there is rejected before the ante handler runs)
+			vbOK := true
+			for _, m := range st.Msgs {
+				if vb, ok := m.(hasValidateBasic); ok && vb.ValidateBasic() != nil {
+					vbOK = false
+				}
+			}
+			for i, n := range signers {
+				if vbOK {
+					seq[n] = seqs[i] + 1
+				} else {
+					seq[n] = seqs[i]
+				}
 			}
 			tx, err := simtestutil.GenSignedMockTx(r, app.TxConfig(), st.Msgs, sdk.NewCoins(), 50_000_000, ChainID, nums, seqs, privs...)
 			if err != nil {
